@@ -5,6 +5,7 @@ import SevenZ.Lemmas.FilesInfo
 import SevenZ.Model.Assign
 import SevenZ.Lemmas.Assign
 import SevenZ.Lemmas.AssignAppend
+import SevenZ.Lemmas.AppendStep
 import SevenZ.Props.C06
 namespace SevenZ.C08
 open SevenZ SevenZ.Impl
@@ -64,6 +65,99 @@ theorem append_cursor_exact (files1 files2 : List Spec.SFile) (nums : List Nat) 
 example : (Spec.assign ([{ emptyStream := false }, { emptyStream := true }] ++ [{ emptyStream := false }, { emptyStream := false }])
     ([1] ++ [2]) ([5] ++ [7, 9]) ([some 1] ++ [none, some 3])).toOption.map (fun l => l.map (·.stream)) =
     some [some (0, 0, 5, some 1), none, some (1, 0, 7, none), some (1, 7, 9, some 3)] := by decide +kernel
+
+
+/-- The archives of a history: a create session, then ANY number of append sessions, each with
+    its own chain of codec stages, coder list and member list (raw header mode), each within the
+    limits of the format and of py7zr's reader — the hypotheses of the constructors are those
+    limits and nothing else: names of Unicode scalar values without backslash and of at most 65535
+    UTF-16 units, fewer than 2^32 members, sizes and tables below 2^64 / 2^63 bytes, and the
+    bytes on disk after each session are what the session model leaves (`appendArchive`).
+    The state's member list is, by construction, the members of all sessions in session order:
+    session `i`'s members in folder `i`, each data member at the offset where its predecessors
+    of the same session end, with the length and CRC-32 of its bytes. -/
+inductive Written (σ : Type) : ArchState → Prop where
+  | create (cfg : WConfig σ) (ms : List WMember) (us : List Nat) (hdr : Bytes)
+      (wfc : WFConfig cfg) (wfm : WFMembers ms) (rs : ReadableSession cfg ms)
+      (hU : unpacksizesOf cfg.methodsMap ((sessionCompress cfg ms).1.chain.map (·.fed)) = some us)
+      (husb : ∀ v ∈ us, v < 2 ^ 64) (hout : (sessionCompress cfg ms).1.out.length < 2 ^ 64)
+      (hns : ∀ m ∈ ms, ∀ ch ∈ m.name, ch ≠ 0x5C)
+      (hw : writeHeaderRaw true (sessionComps cfg ms us).header (32 + (sessionCompress cfg ms).1.out.length) = some hdr)
+      (hh : hdr.length < 2 ^ 64) :
+      Written σ (createState cfg ms us hdr)
+  | append (s : ArchState) (prev : Written σ s) (cfg : WConfig σ) (ms : List WMember) (us : List Nat) (hdr' junk' : Bytes)
+      (wfc : WFConfig cfg) (wfm : WFMembers ms) (rs : ReadableSession cfg ms)
+      (hU : unpacksizesOf cfg.methodsMap ((sessionCompress cfg ms).1.chain.map (·.fed)) = some us)
+      (husb : ∀ v ∈ us, v < 2 ^ 64)
+      (hab : (s.area ++ (sessionCompress cfg ms).1.out).length < 2 ^ 64)
+      (hnf : s.c.fs.length + 1 < 2 ^ 64)
+      (hfiles : ReadableFiles (appendComps s.c cfg ms us).fi)
+      (hns : ∀ m ∈ ms, ∀ ch ∈ m.name, ch ≠ 0x5C)
+      (hw : writeHeaderRaw true (appendComps s.c cfg ms us).header (32 + (s.area ++ (sessionCompress cfg ms).1.out).length) = some hdr')
+      (hh : hdr'.length < 2 ^ 64)
+      (himg : appendArchive s.image cfg ms = some (appendState s cfg ms us hdr' junk').image) :
+      Written σ (appendState s cfg ms us hdr' junk')
+
+/-- every archive of a history satisfies the archive invariant (induction over the sessions) -/
+theorem written_good {σ : Type} (s : ArchState) (w : Written σ s) : s.Good := by
+  induction w with
+  | create cfg ms us hdr wfc wfm rs hU husb hout hns hw hh =>
+    exact (createState_good cfg ms us hdr wfc wfm rs hU husb hout hns hw hh).1
+  | append s _ cfg ms us hdr' junk' wfc wfm rs hU husb hab hnf hfiles hns hw hh _ ih =>
+    exact appendState_good s ih cfg ms us hdr' junk' wfc wfm rs hU husb hab hnf hfiles hns hw hh
+
+/-- **Append preserves history.**  For every archive a create session and any number of append
+    sessions leave (`Written`): the strict archive reader accepts the file, the packed sizes of
+    all sessions tile the data area exactly, the format's assignment returns the members of ALL
+    sessions in session order — every member that was already there with the folder, offset,
+    size and CRC it had, the new ones behind them —, and py7zr's own reader returns the header
+    object the next session will extend. -/
+theorem history_conforms {σ : Type} (s : ArchState) (w : Written σ s) :
+    Spec.readArchiveTail s.image = .ok { top := .raw s.c.expected, dataArea := s.area } ∧
+    Spec.tilesExactly (expectedStreams s.c.p s.c.fs s.c.ss s.c.sizes) s.area = true ∧
+    Spec.members s.c.expected = .ok s.M ∧
+    readNextHeader s.hdr = .ok (.raw s.c.readBack.header) :=
+  (written_good s w).reads
+
+/-- the create constructor describes the create session's archive -/
+theorem written_create_image {σ} (cfg : WConfig σ) (ms : List WMember) (us : List Nat) (hdr : Bytes)
+    (wfc : WFConfig cfg) (wfm : WFMembers ms) (rs : ReadableSession cfg ms)
+    (hU : unpacksizesOf cfg.methodsMap ((sessionCompress cfg ms).1.chain.map (·.fed)) = some us)
+    (husb : ∀ v ∈ us, v < 2 ^ 64) (hout : (sessionCompress cfg ms).1.out.length < 2 ^ 64)
+    (hns : ∀ m ∈ ms, ∀ ch ∈ m.name, ch ≠ 0x5C)
+    (hw : writeHeaderRaw true (sessionComps cfg ms us).header (32 + (sessionCompress cfg ms).1.out.length) = some hdr)
+    (hh : hdr.length < 2 ^ 64) :
+    sessionArchive cfg ms = some (createState cfg ms us hdr).image :=
+  (createState_good cfg ms us hdr wfc wfm rs hU husb hout hns hw hh).2
+
+/-- the append constructor's file exists: an append session on a written archive, within the
+    limits, leaves a file of exactly the shape the constructor describes -/
+theorem written_append_exists {σ} (s : ArchState) (w : Written σ s) (cfg : WConfig σ) (ms : List WMember) (us : List Nat)
+    (img' : Bytes) (hms : ms ≠ [])
+    (hU : unpacksizesOf cfg.methodsMap ((sessionCompress cfg ms).1.chain.map (·.fed)) = some us)
+    (h : appendArchive s.image cfg ms = some img') :
+    ∃ hdr' junk', writeHeaderRaw true (appendComps s.c cfg ms us).header
+        (32 + (s.area ++ (sessionCompress cfg ms).1.out).length) = some hdr' ∧
+      img' = (appendState s cfg ms us hdr' junk').image := by
+  have good := written_good s w
+  exact good.inv.append_image s.hdr s.junk good.hw good.hh cfg ms us hms hU img' h
+
+/-- non-vacuity: a create session and an append session evaluated in the kernel — the appended
+    archive still holds the first session's member where it was, and the new one in folder 1 -/
+def histCfg : WConfig Bytes :=
+  { coders := [{ method := [0x21], props := some [0x18] }], methodsMap := [true],
+    chain := [{ stage := { compress := fun s d => (s, d), flush := fun s => (s, []) }, st := [] }], enableDigests := false }
+
+example : ((sessionArchive histCfg [{ name := [97], emptystream := false, blocks := [[1, 2, 3]], mtime := .val 5, attr := .val 32 }]).bind
+      (fun img => appendArchive img histCfg [{ name := [98], emptystream := true, mtime := .val 6, attr := .val 16 },
+                                             { name := [99], emptystream := false, blocks := [[9]], mtime := .val 7, attr := .val 32 }])).bind
+      (fun img => match Spec.readArchiveTail img with
+        | .ok a => (match a.top with
+          | .raw H => (Spec.members H).toOption.map (fun l => l.map (fun m => (m.file.name, m.stream)))
+          | _ => none)
+        | .error _ => none) ==
+    some [(some [97], some (0, 0, 3, some 1438416925)), (some [98], none), (some [99], some (1, 0, 1, some 2883475241))] := by
+  decide +kernel
 
 /-- appending a folder never moves an earlier member: the cursor's assignment for the old
     members of a base archive is a prefix of the assignment after one more folder with one
